@@ -49,9 +49,27 @@ Matches(st) ==
     /\ cg'.on = st.cg.on /\ (st.cg.on => cg' = RecCg(st))
     /\ {[at |-> b.at, for |-> b.for] : b \in bmp'} = RecBmp(st)
 
-Strict(s) == Next /\ act' = s.act /\ Matches(s.st)
 Cur == [act |-> RecAct(Steps[l].act), st |-> Steps[l].st]
-StrictNow == Next /\ act' = Cur.act /\ Matches(Cur.st)
+\* the action of Accel the recorded label names (dispatch instead of enumerating Next)
+StepOf(a) ==
+    CASE a[1] = "Commit"    -> Commit(a[2], a[3], a[4])
+      [] a[1] = "SetRef"    -> SetRef(a[2], a[3])
+      [] a[1] = "DeleteRef" -> DeleteRef(a[2])
+      [] a[1] = "PackRefs"  -> PackRefs(a[2])
+      [] a[1] = "PackLoose" -> PackLoose
+      [] a[1] = "RepackD"   -> RepackD
+      [] a[1] = "Gc"        -> Gc
+      [] a[1] = "RepackG"   -> RepackG(a[2])
+      [] a[1] = "BuildCg"   -> BuildCg(a[2], a[3])
+      [] a[1] = "BuildMidx" -> BuildMidx(a[2])
+      [] a[1] = "BuildBmp"  -> BuildBmp
+      [] a[1] = "Remove"    -> Remove(a[2])
+      [] a[1] = "CopyMidx"  -> CopyMidx(a[2])
+      [] a[1] = "CopyCg"    -> CopyCg
+      [] a[1] = "CopyBmp"   -> CopyBmp(a[2], a[3])
+      [] a[1] = "Reindex"   -> Reindex(a[2], a[3])
+      [] OTHER -> FALSE
+StrictNow == StepOf(Cur.act) /\ Matches(Cur.st)
 \* leave the model: adopt what the directory shows
 Adopt(s) ==
     /\ n' = s.st.n /\ par' = RecPar(s.st) /\ loose' = SetOf(s.st.loose) /\ packs' = RecPacks(s.st)
@@ -65,47 +83,63 @@ AdoptNow == Adopt(Cur)
 
 (* ---- the answers of the accelerator-free reader against the definitions (evaluated in the NEW state) *)
 Ans(r) == SetOf(r)                     \* [0] = KeyError, [-1] = something that is not a set of whole groups
+\* c is the context computed once per state: [ta |-> TAncFn, u |-> View({})]
 ExactHas(o) == \A i \in 1..n : o.has[i] = (IF T_Has(i) THEN 1 ELSE 0)
 ExactPar(o) == \A i \in 1..n : Ans(o.par[i]) = T_Par(i)
-ExactAnc(o) == \A k \in DOMAIN o.anc : Ans(o.anc[k].r) = T_Anc(SetOf(o.anc[k].H))
-ExactMb(o)  == \A k \in DOMAIN o.mb : Ans(o.mb[k].r) = T_Mb(o.mb[k].i, o.mb[k].j)
+ExactAnc(c, o) == \A k \in DOMAIN o.anc : Ans(o.anc[k].r) = T_Anc(c.ta, SetOf(o.anc[k].H))
+ExactMb(c, o)  == \A k \in DOMAIN o.mb : Ans(o.mb[k].r) = T_Mb(c.ta, o.mb[k].i, o.mb[k].j)
 \* longest path to a root (what get_depth documents); 0 for a commit that is not there
-RECURSIVE DepthOf(_)
-DepthOf(i) == IF par[i] = {} THEN 1 ELSE 1 + CHOOSE m \in {DepthOf(p) : p \in par[i]} : \A x \in {DepthOf(p) : p \in par[i]} : x <= m
-ExactDepth(o) == \A i \in 1..n : o.depth[i] = (IF T_Has(i) THEN DepthOf(i) ELSE 0)
-ExactMiss(o) == \A k \in DOMAIN o.miss : Ans(o.miss[k].r) = T_Miss(SetOf(o.miss[k].X), SetOf(o.miss[k].H))
+RECURSIVE DepthUpTo(_)
+DepthUpTo(k) == IF k = 0 THEN <<>>
+                ELSE LET d == DepthUpTo(k - 1)
+                         ps == {d[p] : p \in par[k]} IN
+                     d @@ (k :> (IF ps = {} THEN 1 ELSE 1 + CHOOSE m \in ps : \A x \in ps : x <= m))
+ExactDepth(o) == LET d == DepthUpTo(n) IN \A i \in 1..n : o.depth[i] = (IF T_Has(i) THEN d[i] ELSE 0)
+ExactMiss(c, o) == \A k \in DOMAIN o.miss : Ans(o.miss[k].r) = T_Miss(c.ta, SetOf(o.miss[k].X), SetOf(o.miss[k].H))
 ExactRef(o)  == \A r \in Refs : o.ref[r] = RefVal(r) /\ o.refs[r] = RefVal(r)
 ExactAll(o)  == Ans(o.all) = PresentS
 \* documented meaning / meaning of the graph-traversal code as it is
-DocRC(e)  == Ans(e.r) = T_RC(SetOf(e.H), SetOf(e.X))
-AsIsRC(e) == LET H == SetOf(e.H)  X == SetOf(e.X)  u == View({}) IN
-             Ans(e.r) = (IF ~(H \subseteq PresentS) THEN MISSING ELSE Norm(Walk(u, H, X, N) \ X))
+DocRC(c, e)  == Ans(e.r) = T_RC(c.ta, SetOf(e.H), SetOf(e.X))
+AsIsRC(c, e) == LET H == SetOf(e.H)  X == SetOf(e.X) IN
+                Ans(e.r) = (IF ~(H \subseteq PresentS) THEN MISSING ELSE Norm(Walk(c.u, H, X, N) \ X))
 \* the objects come classified per group: full = all three, cb = commit and blob only, c = the commit id only
-DocRO(e)  == ~e.other /\ e.cb = <<>> /\ e.c = <<>> /\ Ans(e.full) = T_RO(SetOf(e.H), SetOf(e.X))
+DocRO(c, e)  == ~e.other /\ e.cb = <<>> /\ e.c = <<>> /\ Ans(e.full) = T_RO(c.ta, SetOf(e.H), SetOf(e.X))
 AsIsRO(e) == /\ ~e.other /\ e.full = <<>>
              /\ Ans(e.cb) = (SetOf(e.H) \ SetOf(e.X)) \cap PresentS
              /\ Ans(e.c) = (SetOf(e.H) \ SetOf(e.X)) \ PresentS
-ExactRC(o) == \A k \in DOMAIN o.rc : DocRC(o.rc[k]) \/ AsIsRC(o.rc[k])
-ExactRO(o) == \A k \in DOMAIN o.ro : DocRO(o.ro[k]) \/ AsIsRO(o.ro[k])
-AsIsCount(o) == Cardinality({k \in DOMAIN o.rc : ~DocRC(o.rc[k])}) + Cardinality({k \in DOMAIN o.ro : ~DocRO(o.ro[k])})
+ExactRC(c, o) == \A k \in DOMAIN o.rc : DocRC(c, o.rc[k]) \/ AsIsRC(c, o.rc[k])
+ExactRO(c, o) == \A k \in DOMAIN o.ro : DocRO(c, o.ro[k]) \/ AsIsRO(o.ro[k])
+AsIsCount(c, o) == Cardinality({k \in DOMAIN o.rc : ~DocRC(c, o.rc[k])}) + Cardinality({k \in DOMAIN o.ro : ~DocRO(c, o.ro[k])})
 
-Clause(o) ==
-    IF ~ExactHas(o) THEN "Exact:has"
-    ELSE IF ~ExactPar(o) THEN "Exact:par"
-    ELSE IF ~ExactAnc(o) THEN "Exact:anc"
-    ELSE IF ~ExactMb(o) THEN "Exact:mb"
-    ELSE IF ~ExactDepth(o) THEN "Exact:depth"
-    ELSE IF ~ExactMiss(o) THEN "Exact:miss"
-    ELSE IF ~ExactRef(o) THEN "Exact:refs"
-    ELSE IF ~ExactAll(o) THEN "Exact:all"
-    ELSE IF ~ExactRC(o) THEN "Exact:rc"
-    ELSE IF ~ExactRO(o) THEN "Exact:ro"
-    ELSE "ok"
+\* <<first failing clause, number of answers that match the code but not the documentation>>
+Judge(o) ==
+    LET c == [ta |-> TAncFn, u |-> View({})] IN
+    << IF ~ExactHas(o) THEN "Exact:has"
+       ELSE IF ~ExactPar(o) THEN "Exact:par"
+       ELSE IF ~ExactAnc(c, o) THEN "Exact:anc"
+       ELSE IF ~ExactMb(c, o) THEN "Exact:mb"
+       ELSE IF ~ExactDepth(o) THEN "Exact:depth"
+       ELSE IF ~ExactMiss(c, o) THEN "Exact:miss"
+       ELSE IF ~ExactRef(o) THEN "Exact:refs"
+       ELSE IF ~ExactAll(o) THEN "Exact:all"
+       ELSE IF ~ExactRC(c, o) THEN "Exact:rc"
+       ELSE IF ~ExactRO(c, o) THEN "Exact:ro"
+       ELSE "ok",
+       AsIsCount(c, o) >>
 
 TraceInit ==
     /\ tid \in 1..Len(Traces)
     /\ l = 1 /\ verdict = "ok" /\ failAt = 0 /\ driftAt = 0 /\ asis = 0
     /\ Init
+
+\* The answers recorded after step l-1 are judged in the state that step produced, i.e. at the beginning of
+\* the next action (evaluating them unprimed lets TLC cache the context).
+JudgePrev == IF l > 1 THEN Judge(Steps[l - 1].obs) ELSE <<"ok", 0>>
+Account ==
+    LET j == JudgePrev IN
+    /\ verdict' = IF verdict = "ok" THEN j[1] ELSE verdict
+    /\ failAt' = IF verdict = "ok" /\ j[1] # "ok" THEN l - 1 ELSE failAt
+    /\ asis' = asis + j[2]
 
 \* Either the step is a step of Accel with that label leading to the projected state, or the model is left
 \* (drift) and the projected state adopted.  Both branches are explored; the harness takes, per history, the
@@ -115,19 +149,21 @@ Consume ==
     /\ \/ ~(Traces[tid].free /\ l = 1) /\ driftAt = 0 /\ StrictNow /\ driftAt' = driftAt
        \/ AdoptNow /\ driftAt' = IF driftAt = 0 /\ ~(Traces[tid].free /\ l = 1) THEN l ELSE driftAt
     /\ l' = l + 1
-    /\ \E o \in {Steps[l].obs} :             \* (a bound variable is rigid: the prime applies to the state only)
-         LET c == Clause(o)' IN
-         /\ verdict' = IF verdict = "ok" THEN c ELSE verdict
-         /\ failAt' = IF verdict = "ok" /\ c # "ok" THEN l ELSE failAt
-         /\ asis' = asis + AsIsCount(o)'
+    /\ Account
     /\ UNCHANGED tid
 
 Finish ==
     /\ l = Len(Steps) + 1
+    /\ Account
+    /\ l' = l + 1
+    /\ UNCHANGED <<vars, tid, driftAt>>
+
+Report ==
+    /\ l = Len(Steps) + 2
     /\ PrintT(<<"VERDICT", Traces[tid].tid, verdict, failAt, driftAt, asis>>)
     /\ l' = l + 1
     /\ UNCHANGED <<vars, tid, verdict, failAt, driftAt, asis>>
 
-TraceNext == Consume \/ Finish
+TraceNext == Consume \/ Finish \/ Report
 TraceSpec == TraceInit /\ [][TraceNext]_tvars
 =============================================================================
